@@ -314,7 +314,8 @@ sqf::runtime::runtime::result sqf::runtime::runtime::execute(sqf::runtime::runti
             m_is_exit_requested = false;
             m_is_halt_requested = false;
             m_run_timestamp = std::chrono::system_clock::now(); // max_runtime counts from the start of this run
-            auto scopeNum = m_context_active->frames_size() - 1;
+            if (!m_context_active && !m_contexts.empty()) { m_context_active = m_contexts.front(); } // nothing ran yet
+            auto scopeNum = m_context_active ? m_context_active->frames_size() - 1 : 0;
             m_state = state::running;
             while (!m_is_exit_requested && !m_is_halt_requested && !m_contexts.empty())
             {
@@ -324,7 +325,7 @@ sqf::runtime::runtime::result sqf::runtime::runtime::execute(sqf::runtime::runti
                 {
                     break;
                 }
-                if (m_context_active->frames_size() <= scopeNum)
+                if (!m_context_active || m_context_active->frames_size() <= scopeNum)
                 {
                     break;
                 }
@@ -549,10 +550,11 @@ sqf::runtime::runtime::result sqf::runtime::runtime::execute(sqf::runtime::runti
             m_run_timestamp = std::chrono::system_clock::now(); // max_runtime counts from the start of this run
             bool success;
             m_state = state::running;
+            if (!m_context_active && !m_contexts.empty()) { m_context_active = m_contexts.front(); } // nothing ran yet
             std::optional<diagnostics::diag_info> dinf;
             while (!m_is_exit_requested && !m_is_halt_requested && !m_contexts.empty())
             {
-                if (!dinf.has_value())
+                if (!dinf.has_value() && m_context_active && !m_context_active->empty())
                 {
                     auto next_inst = m_context_active->current_frame().peek(success);
                     if (success)
@@ -567,7 +569,7 @@ sqf::runtime::runtime::result sqf::runtime::runtime::execute(sqf::runtime::runti
                 {
                     break;
                 }
-                if (dinf.has_value())
+                if (dinf.has_value() && m_context_active && !m_context_active->empty())
                 {
                     auto next_inst = m_context_active->current_frame().peek(success);
                     if (success && dinf.value() != (*next_inst)->diag_info())
